@@ -381,6 +381,8 @@ def gen(p):
       wout, opts, wh, wm = _lru_ref(items, maxsize, h, m, op, key, v)
       if out != wout: return False
       return _lru_inv(c, opts, maxsize, wh, wm)"""))
+  A(F('ob_lru_init', 'maxsize: int', f'1 <= maxsize <= {M}', """
+      return _lru_inv(func_utils.LruCache(maxsize=maxsize), [[]], maxsize, 0, 0)     # base case of the induction"""))
   A(F('wit_lru_evict', 'k0: int, k1: int, k: int', 'k0 != k1', """
       c = _lru_mk(2, [(Key(k0), 0), (Key(k1), 1)], 0, 0)
       c[Key(k)] = 2
@@ -472,12 +474,12 @@ def gen(p):
     em = Emit(cached=True, nleafvars=p['flag_leafvars'])
     s0 = em.node(t0)
     s1 = em.node(t1)
-    params, pre = _params(min(em.leaves, p['flag_leafvars']), em.idx, em.flags, False, lo2, hi2)
+    params, pre = _params(min(em.leaves, p['flag_leafvars']), em.idx, em.flags, False, 0, 1)
     params += ', ' + ', '.join(f'o{j}: int' for j in range(nops))
     pre += ' and ' + ' and '.join(f'0 <= o{j} <= 2' for j in range(nops))
     A(F(f'ob_hist_{hn}', params, pre, f"""
       return _hist([{s0}, {s1}], [False, False], [{', '.join(f'o{j}' for j in range(nops))}])"""))
-  A(F('wit_hist', 'x0: int, x1: int, o0: int, o1: int, o2: int', f'{lo2} <= x0 <= {hi2} and {lo2} <= x1 <= {hi2} and 0 <= o0 <= 2 and 0 <= o1 <= 2 and 0 <= o2 <= 2', """
+  A(F('wit_hist', 'x0: int, x1: int, o0: int, o1: int, o2: int', '0 <= x0 <= 1 and 0 <= x1 <= 1 and 0 <= o0 <= 2 and 0 <= o1 <= 2 and 0 <= o2 <= 2', """
       _reset(); env = _Env()
       es = [_lazy(('cnt', (True, False), ('L', x0)), env), _lazy(('cnt', (True, False), ('L', x1)), env)]
       out = []
@@ -656,8 +658,11 @@ def run(tier):
   p['fn_bound'] = lazy_fns.cache_info().maxsize
   p['obj_bound'] = lazy_fns.object_info().maxsize
   timeout = p.pop('timeout')
-  shown = {k: ([name(t) for t in v] if k.endswith('_trees') else v) for k, v in p.items() if k not in ('hists', 'flag_sets')}
-  shown['flag_sets'] = [{'leaf_range': r, 'skeletons': [name(t) for t in ts]} for r, ts in p['flag_sets']]
+  def names(ts):
+    ns = [name(t) for t in ts]
+    return ns if len(ns) <= 24 else f'{len(ns)} skeletons: ' + ' '.join(ns[:12]) + ' ... ' + ' '.join(ns[-4:])
+  shown = {k: (names(v) if k.endswith('_trees') else v) for k, v in p.items() if k not in ('hists', 'flag_sets')}
+  shown['flag_sets'] = [{'leaf_range': r, 'skeletons': names(ts)} for r, ts in p['flag_sets']]
   shown['sym_trees'] = f'{len(p["sym_trees"])} skeletons: all with <= 2 productions' + (
       ' and all with 3 productions' if tier != 'quick' else ' and every 41st of the 2254 3-production skeletons + 3 with the stateful callee in several argument positions')
   shown['hists'] = {k: (name(a), name(b), n) for k, (a, b, n) in p['hists'].items()}
@@ -666,7 +671,7 @@ def run(tier):
                   'constant hash; kind int: plain ints below lru_int_keys, n <= lru_int_n) in symbolic recency order, maxsize max(n,1)..lru_maxsize, '
                   'symbolic values and hit/miss counters, one symbolic operation (get/set/contains/clear/cache_insert) with a symbolic key; '
                   'lru_hists: S=set G=get C=clear N=contains I=cache_insert from an empty cache, every key symbolic, maxsize 1..lru_hist_maxsize; productions: add mul okw(zeta=,alpha=) cnt(stateful) item(pair(..)[i]) attr(obj(..).a/.b) meth(obj(..).scaled(..)) '
-                  'pair/obj(root only); sym_range/flag_range = leaf ranges; hists = (expr0, expr1, number of symbolic ops in {make0, make1, clear_cache}); '
+                  'pair/obj(root only); sym_range/flag_range = leaf ranges; hists = (expr0, expr1, number of symbolic ops in {make0, make1, clear_cache}), leaves 0..1, a digit is a constant leaf, C/U after a production = always/never cached; '
                   'fn_bound/obj_bound are read from the library (128/1024)')
   rep.outside('expressions deeper than 3 productions / other callees', 'LruCache with maxsize > lru_maxsize in the step obligations (the real 128/1024 '
               'bounds are exercised only by the fn_bound/obj_bound histories)', 'non-integer leaves (1 == True == 1.0 share a cache key)',
@@ -677,7 +682,11 @@ def run(tier):
              'CrossHair short-circuiting of contracted functions (its model of hash()) disabled during symbolic runs: always call into (sound; avoids UNKNOWN paths)',
              'hashing (dict keys of the caches) and the pickle boundary realise symbolic ints: on those paths z3 enumerates the leaf values inside the '
              'stated ranges one by one; leaves stay fully symbolic only on paths without a cached call (sym_* obligations)',
-             'pickle obligations realise every input before dumps (the C pickler cannot serialise symbolic proxies)')
+             'pickle obligations: every input is made concrete by ordinary branches before dumps (the C pickler cannot serialise symbolic '
+             'proxies), then the real code runs natively (untraced): an enumeration of the stated small ranges driven by the solver, not symbolic reasoning',
+             'LruCache step/history obligations use Key objects (equality = that of a symbolic int, constant hash) so that z3 reasons about the equality '
+             'pattern between keys; plain int keys (realised value by value by hash()) are covered for n <= lru_int_n',
+             'fn_bound/obj_bound: the filler entries are concrete and are created natively (untraced); prefill size, number of fillers, touch, values are symbolic')
   only = os.environ.get('VF_ONLY')
   xh.run_module(rep, gen(p), 'c17_h', timeout, classify=classify, only=(lambda n: only in n) if only else None)
   return rep.finish()
